@@ -12,9 +12,12 @@ QUICK_N = 110
 THOROUGH_N = 2200
 LEVEL_NOTE = ("proved in Lean: (values) a derived object equals its source at creation; (references, BB.Model.Heap) for every history of "
               "calls whose programs obey the checked ownership discipline, calls on other objects leave an object's whole observable "
-              "tree unchanged (heap_separation, heap_independent, heap_derive_leaves_sources). Decided by correspondence, not proved: "
+              "tree unchanged (heap_separation, heap_independent, heap_derive_leaves_sources); every method program of the library obeys that "
+              "discipline on every reachable state (Shaped invariant: heap_lib_call_nofault, heap_lib_history_nofault, "
+              "heap_lib_independent without a no-fault hypothesis) and a copy unfolds to the same tree as its source "
+              "(heap_deepCopy_correct, heap_bp/el/sqCopy_same). Decided by correspondence, not proved: "
               "that the method programs of BB.Model.Heap describe what the Python methods allocate, copy and write (same sharing "
-              "between any two user-held objects as an id() walk of the real objects finds, model never faults), and the refinement "
+              "between any two user-held objects as an id() walk of the real objects finds), and the refinement "
               "of the implementation by the value model over the derive x mutate matrix. Trusted: Lean kernel + propext/Quot.sound/"
               "Classical.choice, py2lean, the harness incl. its object walker; CPython's object model (deepcopy, list.copy, dict.copy) "
               "modelled not verified")
